@@ -159,7 +159,11 @@ pub fn c02_constructed(k: u64) -> Case {
 }
 
 pub fn c02_check(case: &Case, op: Op, f32_run: bool, w: &Witnesses, st: &mut StructStats) -> Result<(), (String, String)> {
-    let r = run_any(&case.a, &case.b, op, f32_run, Pairing::MM).map_err(|f| (format!("failure:{}", f.symptom()), format!("{:?}", f)))?;
+    c02_check_through(case, op, f32_run, w, st, Pairing::MM)
+}
+
+pub fn c02_check_through(case: &Case, op: Op, f32_run: bool, w: &Witnesses, st: &mut StructStats, pairing: Pairing) -> Result<(), (String, String)> {
+    let r = run_any(&case.a, &case.b, op, f32_run, pairing).map_err(|f| (format!("failure:{}", f.symptom()), format!("{:?}", f)))?;
     let exact = if f32_run { case.exact_f32 } else { case.exact };
     check_structure(&r, w, exact, st).map_err(|m| ("structure".to_string(), format!("{}: {}", op.name(), m)))
 }
@@ -205,10 +209,16 @@ pub fn c02_worker(ctx: &mut Ctx) {
         };
         let w = witnesses(&case, case.tol(false));
         ctx.begin("shared", i, "");
+        // "every result": through whichever trait pairing the operands allow, in rotation
+        let applicable: Vec<Pairing> = crate::iface::PAIRINGS.iter().cloned().filter(|p| p.applicable(&case.a, &case.b)).collect();
+        let pairing = applicable[(i / 5) as usize % applicable.len()];
+        if pairing != Pairing::MM {
+            ctx.cnt("cases_through_a_bare_polygon_pairing", 1);
+        }
         for op in OPS {
             ctx.evaluations += 1;
-            if let Err((sym, detail)) = c02_check(&case, op, false, &w, &mut st) {
-                ctx.violation(&sym, &detail, boolean_replay("C02", &case, Some(op), false, Pairing::MM, json!({})));
+            if let Err((sym, detail)) = c02_check_through(&case, op, false, &w, &mut st, pairing) {
+                ctx.violation(&sym, &format!("[{}] {}", pairing.name(), detail), boolean_replay("C02", &case, Some(op), false, pairing, json!({})));
             }
             if nontrivial(&case) {
                 ctx.note_nontrivial(case_hash(&case, op.name()));
@@ -298,6 +308,29 @@ pub fn c04_worker(ctx: &mut Ctx) {
             ctx.sample(case_brief(&case));
         }
     }
+    if ctx.shard == 1 % ctx.nshards && ctx.only_index.is_none() {
+        // a result with more than 2^16 events (anything indexed or counted in 16 bits wraps there): every edge of every
+        // result of the large comb must be a piece of an axis-parallel operand edge, and the areas are known exactly
+        let n = if ctx.tier == Tier::Quick { 20_000 } else { 60_000 };
+        ctx.begin("large", n as u64, "");
+        match comb_five(n) {
+            Ok(rs) => {
+                for (name, r, want) in rs {
+                    ctx.evaluations += 1;
+                    ctx.max("max_result_vertices", rings(&r).map(|x| x.len() as u64).sum());
+                    match comb_result_sanity(&r, n) {
+                        Ok(e) => ctx.cnt("large_result_edges_traced_to_operand_edges", e),
+                        Err(m) => ctx.violation("provenance:large", &format!("{} of the {}-rectangle comb: {}", name, n, m), json!({"kind": "generated", "property": "C04", "label": "large", "index": n, "seed": ctx.seed, "tier": ctx.tier.name(), "variant": ctx.variant})),
+                    }
+                    if mp_area2(&r) != want {
+                        ctx.violation("provenance:large", &format!("{} of the {}-rectangle comb has doubled area {} instead of {}", name, n, mp_area2(&r), want), json!({"kind": "generated", "property": "C04", "label": "large", "index": n, "seed": ctx.seed, "tier": ctx.tier.name(), "variant": ctx.variant}));
+                    }
+                }
+            }
+            Err((sym, detail)) => ctx.violation(&sym, &detail, json!({"kind": "generated", "property": "C04", "label": "large", "index": n, "seed": ctx.seed, "tier": ctx.tier.name(), "variant": ctx.variant})),
+        }
+        ctx.end();
+    }
     crate::props::run_known(ctx, &mut |case, op, f32_run| c04_check(case, op, f32_run, &mut ProvStats::default()));
     ctx.monitor.insert(
         "provenance_monitor".into(),
@@ -307,6 +340,58 @@ pub fn c04_worker(ctx: &mut Ctx) {
     ctx.monitor.insert("hook_hits".into(), json!(hits_map()));
 }
 
+
+// ------------------------------------------------------------------------------------------
+// large inputs with analytically known results (result sizes beyond 2^16 events)
+
+/// comb(n) = n rectangles [0,100]x[i,i+1/2] against the box [-1,1]x[-1,n/2] (n even): twice the exact areas of
+/// (A, B, intersection, union, A-B, B-A, xor)
+pub fn comb_areas2(n: usize) -> [f64; 7] {
+    let n = n as f64;
+    let (a, b, i) = (100.0 * n, 4.0 * (n / 2.0 + 1.0), 0.5 * n);
+    [a, b, i, a + b - i, a - i, b - i, a + b - 2.0 * i]
+}
+
+/// Every ring of a result of comb(n) op box: closed, at least 4 distinct vertices, only axis-parallel edges of non-zero
+/// length whose endpoints have abscissae from {-1, 0, 1, 100} and ordinates that are multiples of 1/2 in [-1, n] (all
+/// input edges are axis-parallel with such endpoints, so anything else is not a piece of an operand edge), exterior
+/// counter-clockwise / holes clockwise with non-zero area.
+pub fn comb_result_sanity(r: &MP, n: usize) -> Result<u64, String> {
+    let mut edges = 0u64;
+    for (pi, poly) in r.iter().enumerate() {
+        for (ri, ring) in poly.iter().enumerate() {
+            if ring.len() < 5 || ring[0] != ring[ring.len() - 1] {
+                return Err(format!("ring {} of polygon {} is not a closed ring with at least 4 vertices: {} points", ri, pi, ring.len()));
+            }
+            for w in ring.windows(2) {
+                let (p, q) = (w[0], w[1]);
+                edges += 1;
+                let axis_parallel = (p.0 == q.0) != (p.1 == q.1);
+                let ok_pt = |v: Pt| [-1.0, 0.0, 1.0, 100.0].contains(&v.0) && (v.1 * 2.0).fract() == 0.0 && v.1 >= -1.0 && v.1 <= n as f64;
+                if !axis_parallel || !ok_pt(p) || !ok_pt(q) {
+                    return Err(format!("result edge {:?}-{:?} (ring {} of polygon {}) does not lie on an edge of either operand", p, q, ri, pi));
+                }
+            }
+            let ar = ring_area2(ring);
+            if (ri == 0 && ar <= 0.0) || (ri > 0 && ar >= 0.0) {
+                return Err(format!("ring {} of polygon {} has doubled signed area {}", ri, pi, ar));
+            }
+        }
+    }
+    Ok(edges)
+}
+
+/// the five results of the large comb; (operation name, result, expected doubled area)
+pub fn comb_five(n: usize) -> Result<Vec<(&'static str, MP, f64)>, (String, String)> {
+    let (a, b) = comb(n);
+    let ar = comb_areas2(n);
+    let mut out = Vec::new();
+    for (name, x, y, op, want) in [("intersection", &a, &b, Op::Intersection, ar[2]), ("union", &a, &b, Op::Union, ar[3]), ("A-B", &a, &b, Op::Difference, ar[4]), ("B-A", &b, &a, Op::Difference, ar[5]), ("xor", &a, &b, Op::Xor, ar[6])] {
+        let r = run_any(x, y, op, false, Pairing::MM).map_err(|f| (format!("failure:{}", f.symptom()), format!("{} of the {}-rectangle comb: {:?}", name, n, f)))?;
+        out.push((name, r, want));
+    }
+    Ok(out)
+}
 // ------------------------------------------------------------------------------------------
 // C05
 
@@ -356,7 +441,12 @@ pub fn c05_worker(ctx: &mut Ctx) {
         ctx.begin("mixed", i, "");
         ctx.evaluations += 1;
         // the operations must be consistent through whichever trait pairing the caller uses: rotate through the applicable ones
-        let applicable: Vec<Pairing> = crate::iface::PAIRINGS.iter().cloned().filter(|p| p.applicable(&case.a, &case.b) && p.applicable(&case.b, &case.a)).collect();
+        let mirrored = |p: Pairing| match p {
+            Pairing::PM => Pairing::MP,
+            Pairing::MP => Pairing::PM,
+            q => q,
+        };
+        let applicable: Vec<Pairing> = crate::iface::PAIRINGS.iter().cloned().filter(|p| p.applicable(&case.a, &case.b) && mirrored(*p).applicable(&case.b, &case.a)).collect();
         let pairing = applicable[(i / 3) as usize % applicable.len()];
         ctx.cnt(&format!("pairs_through_{}", pairing.name().replace(' ', "_")), 1);
         match c05_check_through(&case, false, &w, pairing) {
@@ -376,6 +466,25 @@ pub fn c05_worker(ctx: &mut Ctx) {
         if i % 997 == 0 {
             ctx.sample(case_brief(&case));
         }
+    }
+    if ctx.shard == 2 % ctx.nshards && ctx.only_index.is_none() {
+        // mutual consistency on results with more than 2^16 events: the three area identities, exactly
+        let n = if ctx.tier == Tier::Quick { 20_000 } else { 60_000 };
+        ctx.begin("large", n as u64, "");
+        ctx.evaluations += 1;
+        match comb_five(n) {
+            Ok(rs) => {
+                let ar: Vec<f64> = rs.iter().map(|x| mp_area2(&x.1)).collect();
+                let (aa, ab) = (comb_areas2(n)[0], comb_areas2(n)[1]);
+                let (i, u, d, e, x) = (ar[0], ar[1], ar[2], ar[3], ar[4]);
+                ctx.cnt("area_identities_checked_on_large_results", 4);
+                if i + u != aa + ab || x != u - i || d != aa - i || e != ab - i {
+                    ctx.violation("consistency:large", &format!("area identities fail on the {}-rectangle comb: doubled areas intersection {} union {} A-B {} B-A {} xor {}, A {} B {}", n, i, u, d, e, x, aa, ab), json!({"kind": "generated", "property": "C05", "label": "large", "index": n, "seed": ctx.seed, "tier": ctx.tier.name(), "variant": ctx.variant}));
+                }
+            }
+            Err((sym, detail)) => ctx.violation(&sym, &detail, json!({"kind": "generated", "property": "C05", "label": "large", "index": n, "seed": ctx.seed, "tier": ctx.tier.name(), "variant": ctx.variant})),
+        }
+        ctx.end();
     }
     ctx.monitor.insert("hook_hits".into(), json!(hits_map()));
 }
